@@ -422,6 +422,125 @@ pub fn set_extend_ref<K: SimK, V: SimV, const C: usize>(cx: &mut Cx<K, V>, class
     }
 }
 
+/// One container's consuming iterator or drain is the source of another container's bulk
+/// construction (`extend` is `for_each`-based, `collect` is `next`-based). The keys are projected
+/// (class / 2) so that they collide. The reference is one-by-one insertion of the projected keys in the
+/// order in which an observationally identical twin of the source hands them out through `next()`.
+#[allow(clippy::too_many_arguments)]
+pub fn transfer<K: SimK, V: SimV, const C1: usize, const C2: usize>(src_map: &mut Map<K, V, C1>, src_set: &mut Set<K, C1>, dst: &mut Set<K, C2>, cx: &mut Cx<K, V>, how: u8, pre_map: &Snap, pre_set: &Snap, pre_dst: &Snap) {
+    let aw = cx.cfg.alloc_window;
+    cx.probe("transfer_between_containers");
+    // mode: 0 extend(map.drain())   1 collect(map.into_iter())   2 extend(set.drain())
+    //       3 extend(set.into_iter())   4 extend(map.into_iter())   5 collect(map.drain())
+    let how = how % 6;
+    let from_map = matches!(how, 0 | 1 | 4 | 5);
+    let by_drain = matches!(how, 0 | 2 | 5);
+    let replaces_dst = matches!(how, 1 | 5);
+    // the twin's next()-order, as (class, tag) of the keys
+    let order: Option<Vec<(u32, u32)>> = observing(|| {
+        catch_unwind(AssertUnwindSafe(|| {
+            let ct = |k: &K| {
+                let p = k.peek();
+                (p.class, p.tag)
+            };
+            if from_map {
+                let mut twin = src_map.clone();
+                let ts = snap_map(&twin);
+                if ts.len() != pre_map.len() || ts.iter().zip(pre_map.iter()).any(|(a, b)| a.kclass != b.kclass || a.ktag != b.ktag) {
+                    return None;
+                }
+                Some(if by_drain {
+                    let v = twin.drain().map(|(k, _)| ct(&k)).collect();
+                    drop(twin);
+                    v
+                } else {
+                    twin.into_iter().map(|(k, _)| ct(&k)).collect()
+                })
+            } else {
+                let mut twin = src_set.clone();
+                let ts = snap_set(&twin);
+                if ts.len() != pre_set.len() || ts.iter().zip(pre_set.iter()).any(|(a, b)| a.kclass != b.kclass || a.ktag != b.ktag) {
+                    return None;
+                }
+                Some(if by_drain {
+                    let v = twin.drain().map(|k| ct(&k)).collect();
+                    drop(twin);
+                    v
+                } else {
+                    twin.into_iter().map(|k| ct(&k)).collect()
+                })
+            }
+        }))
+        .ok()
+        .flatten()
+    });
+    let proj = |k: K| -> K {
+        let p = k.peek();
+        let _p = crate::alloc::Pause::new();
+        K::make(p.class / 2, p.tag)
+    };
+    let r = catch_unwind(AssertUnwindSafe(|| match how {
+        0 => win!(aw, dst.extend(src_map.drain().map(|(k, _)| proj(k)))),
+        1 => {
+            let owned = std::mem::replace(src_map, Map::new());
+            let b: Set<K, C2> = win!(aw, owned.into_iter().map(|(k, _)| proj(k)).collect());
+            let old = std::mem::replace(dst, b);
+            win!(aw, drop(old));
+        }
+        2 => win!(aw, dst.extend(src_set.drain().map(proj))),
+        3 => {
+            let owned = std::mem::replace(src_set, Set::new());
+            win!(aw, dst.extend(owned.into_iter().map(proj)));
+        }
+        4 => {
+            let owned = std::mem::replace(src_map, Map::new());
+            win!(aw, dst.extend(owned.into_iter().map(|(k, _)| proj(k))));
+        }
+        _ => {
+            let b: Set<K, C2> = win!(aw, src_map.drain().map(|(k, _)| proj(k)).collect());
+            let old = std::mem::replace(dst, b);
+            win!(aw, drop(old));
+        }
+    }));
+    crate::alloc::arm(false);
+    if let Err(p) = &r {
+        if is_sim_panic(p) {
+            resume_unwind(r.err().unwrap());
+        }
+    }
+    if let (Some(order), false, false) = (order, cx.lying, K::ANON) {
+        let (rs, ref_ok) = observing(|| {
+            let mut rs: Set<K, C2> = Set::new();
+            if !replaces_dst {
+                for e in pre_dst {
+                    rs.insert(K::make(e.kclass, e.ktag));
+                }
+            }
+            let res = catch_unwind(AssertUnwindSafe(|| {
+                for (c, t) in &order {
+                    rs.insert(K::make(c / 2, *t));
+                }
+            }));
+            (rs, res.is_ok())
+        });
+        let (cb, cr) = (content(&snap_set(dst), false, true, false), content(&snap_set(&rs), false, true, false));
+        match (r.is_ok(), ref_ok) {
+            (true, true) => {
+                if cb != cr {
+                    violate("differs-from-one-by-one", format!("bulk construction from another container's consuming iterator (mode {how}) gives (class, key tag) {cb:?} but inserting the items one by one in next() order gives {cr:?}"));
+                }
+            }
+            (false, true) => violate("capacity-misjudged", format!("bulk construction from another container's iterator (mode {how}) panicked although inserting the items one by one fits into capacity {C2}")),
+            (true, false) => violate("capacity-misjudged", format!("bulk construction from another container's iterator (mode {how}) returned although inserting the items one by one overflows capacity {C2}")),
+            (false, false) => {}
+        }
+        observing(|| drop(rs));
+    }
+    if let Err(p) = r {
+        resume_unwind(p);
+    }
+}
+
 /// The smallest class that no entry of the snapshot carries.
 pub fn absent_class(s: &Snap) -> u32 {
     let mut c = 0;
